@@ -744,6 +744,15 @@ func runCall(c *call, r recorder) (out outcome, _ error) {
 			case e.viaPtr:
 				place = "behind a pointer"
 			}
+			if u := selfUnpacking[e.cat]; u != "" {
+				methods["Validate() of a type that unpacks itself ("+u+", pointer receiver) decides: "+origin+", "+place] = true
+			}
+			if zeroRejecting[e.cat] {
+				methods["Validate() rejecting the zero value of a named "+info.under+" decides: "+origin+", "+place] = true
+			}
+			if e.nullElem {
+				methods["Validate() decides on the value an explicit null element / entry stands for: named "+info.under] = true
+			}
 			if e.emptyColl != "" && emptyRejecting[e.cat] {
 				// (the pre-fill state of a collection nobody filled: nil and T{} are different values of the same type)
 				methods["Validate() rejecting the empty collection decides: "+e.emptyColl+" "+info.under+", "+origin] = true
@@ -751,6 +760,16 @@ func runCall(c *call, r recorder) (out outcome, _ error) {
 			}
 			methods["Validate() with "+recv+" receiver decides: named "+info.under] = true
 			methods["Validate() with "+recv+" receiver decides: "+origin+", "+place] = true
+		}
+		if e.tagOnUnpacker {
+			origin := "value not mentioned by the configuration"
+			if e.fromCfg {
+				origin = "value from the configuration"
+			}
+			methods["a tag on a field whose type unpacks itself decides: "+origin] = true
+		}
+		if e.nullElem && e.what != "Validate()" {
+			methods["a tag decides on the value an explicit null element / entry stands for"] = true
 		}
 		viaPtr = viaPtr || e.viaPtr
 		inColl = inColl || e.inColl
@@ -871,6 +890,7 @@ func runCall(c *call, r recorder) (out outcome, _ error) {
 		}
 		r.ClassIf(refs > 0, "values delivered through ${ref}")
 	}
+	r.ClassIf(hasNullElem(c.Cfg, false), "config: explicit null as an element of a list or as a value below the top level")
 	r.ClassIf(c.Pre == nil, "prefill: zero value")
 	r.ClassIf(facts.ptr, "type: pointer")
 	r.ClassIf(facts.slice, "type: slice")
@@ -969,6 +989,27 @@ func safely(f func() error) (err error, panicked bool) {
 	return f(), false
 }
 
+// hasNullElem reports whether the configuration holds an explicit null as an
+// element of a list, or as a value of an object below the top level (an entry
+// of a map, or a field of a struct that is itself an element / a field).
+func hasNullElem(t *gen.Tree, below bool) bool {
+	if t == nil {
+		return false
+	}
+	for _, v := range t.Vals {
+		if v == nil {
+			continue
+		}
+		if v.K == "nil" && (below || t.K == "list") {
+			return true
+		}
+		if hasNullElem(v, true) {
+			return true
+		}
+	}
+	return false
+}
+
 func showTree(t *gen.Tree) string { return fmt.Sprintf("%v", showGo(t)) }
 
 func showGo(t *gen.Tree) string {
@@ -995,7 +1036,7 @@ func showGo(t *gen.Tree) string {
 
 var subTwin = runlog.Register(&runlog.Sub[Case]{
 	Name: "twin-differential",
-	Rule: "random struct types (reflect.StructOf over all primitive kinds, named variants, durations, regexps, pointers, slices, arrays, string-keyed maps, nested and inline structs, and 54 hand-written catalogue types with Validate()/InitDefaults/own tags (among them named slices and maps whose Validate(), with either receiver, REJECTS THE EMPTY COLLECTION, plain structs holding one, and a struct whose InitDefaults installs a pointer to a nil one: the nil collection, the allocated empty one - the value generator draws both pre-fill states wherever a collection sits: field, element, map entry, pointee, value held by an interface - and one the configuration sets to [] / {} are three ways to the same rejected value; the settings themselves hold no null elements): Validate() declared on the VALUE receiver and on the POINTER receiver for every underlying kind a named type can have - int, uint, float, string, bool, an int64 derived from time.Duration, slice, array, map, struct -, InitDefaults (pointer receiver, for maps also value receiver) on named int, uint, float, string, bool, map and struct types with valid and with invalid defaults; 17 of them have an InitDefaults that installs exactly one value failing validation - the value of a named string / float / bool / int itself, a map entry rejected by the element's Validate() (value or pointer receiver), by a tag of the element struct or of a pointee, a list element / array element / map entry / pointee / tagged field of a struct - which only the configuration can override; 6 more have an InitDefaults that stores ONE object at two places with different validators (one *int in two fields with different bounds, as a list element and in a tagged field, a *Duration as a map entry and in a tagged field, a *float64 behind a further pointer and in a tagged field, an empty slice / map in two fields the second of which is required), the second place rejecting it; the harness checks at start-up that the oracle's description of every catalogue type agrees with its method sets) with validate tags (required, nonzero, positive, min=N, max=N, singly or in pairs, sometimes spelt with blanks around '=') on about a third of the fields whose kind the documentation defines them for (every second duration field), at any depth; parameters in every syntax the code reads them with: integers decimal, hexadecimal, octal (0o17 and 017), binary, with digit separators and signs, up to the 64-bit limits; floats with exponent, hexadecimal, bare point, sign; duration bounds in unit syntax (compound, fractional, signed) and as plain numbers of seconds (integral, fractional, negative, exponent form); settings on, below and above every bound. Inline fields of every kind the code accepts: about a quarter of the collection types below the top level (an eighth of the struct types, catalogue types included) are replaced by struct{C T `config:\",inline\"`} (a quarter of them spelt squash, a quarter with a named sibling field), whose setting is the list / object itself, and every second inline slice / array / map field carries a required / nonzero tag (inline maps only while D55 is not open). 1 case in 12 unpacks into a map, slice or array target (plain or catalogue type; in a third of them map[string]interface{}, []interface{} or collections of those) instead of a struct. Values reached through an interface: in 1 case of 3 about a quarter of the fields are turned into interface{}, []interface{}, map[string]interface{}, [N]interface{} or map[string][]interface{} fields and a quarter of the collections of primitives into collections of interface{} (inline spellings and collection-level required / nonzero tags included); every second interface{} field carries a tag itself (required, nonzero, positive, min / max with a bound every numeric kind reads; only while D61 is not open); the pre-filled interfaces are nil or hold generic data (about 1 of 7 each), otherwise a typed value: a catalogue type with Validate() / InitDefaults / tags, a pointer or double pointer to one (nil pointers included), a reflect.StructOf struct with tagged fields (by value or behind a pointer), a typed slice / map / pointer to slice or map of such types, generic []interface{} / map[string]interface{} holding typed values again, or a pointer to a tagged struct that has an interface-typed field itself (two levels); the dynamic types are part of the case (dyn), valid and invalid values alike; the configuration leaves the interface unmentioned, or holds a setting built from the dynamic type of the pre-filled value (the code merges it into the held value) or generic data. The twin value holds the twin VALUE (no Validate, no tags) of the same shape in the interface; the walk follows interfaces by the dynamic Go type of what it finds (the types of the case, the types behind their pointers, generic data). A pre-filled value (zero value in 1 of 6 cases); a configuration built from the type that mentions about half of the fields (explicit nil settings included; for maps other keys than the pre-filled / InitDefaults ones as a rule, in 1 of 4 draws the keys InitDefaults inserts); a global list policy (replace, append, prepend, replace arrays only) in 1 of 3 cases and policy tags on slices; with VarExp (1 of 3) about a fifth of the settings are delivered through ${rN} references. Oracle: unpack configuration and pre-filled value into the twin type (no tags, no Validate methods, same InitDefaults) to get R; reference validators (documented meaning, applied through non-nil pointers, tags of inline fields included) walk R; all accept => Unpack into the real type succeeds with a result equal to R; one rejects => Unpack fails and the message quotes the path of a rejected field or of an enclosing one (nothing to quote for a validator of the target itself or an element of a collection target kept from the pre-filled value); tags of a collection field whose elements are not structs are also applied to the elements and such element-level rejections alone allow either verdict; whenever Unpack returns nil the returned value itself is walked. Constructed away only while the finding is open: a rejecting Validate() of a value an interface holds directly (D59), a setting for an interface that holds a struct, an array or a nil map by value (D60: Unpack panics), tags on interface{} fields (D61). Non-trivial: a deciding validator (a rejecting one, or any if all accept) judges a value the configuration does not mention (default / InitDefaults) or sits behind a pointer, inside a collection or in an inline field. Distinct: hash of (type, pre-filled value, configuration, VarExp, policy, dynamic types).",
+	Rule: "random struct types (reflect.StructOf over all primitive kinds, named variants, durations, regexps, pointers, slices, arrays, string-keyed maps, nested and inline structs, and 54 hand-written catalogue types with Validate()/InitDefaults/own tags (among them named slices and maps whose Validate(), with either receiver, REJECTS THE EMPTY COLLECTION, plain structs holding one, and a struct whose InitDefaults installs a pointer to a nil one: the nil collection, the allocated empty one - the value generator draws both pre-fill states wherever a collection sits: field, element, map entry, pointee, value held by an interface - and one the configuration sets to [] / {} are three ways to the same rejected value; further named int / string / uint / float / bool types whose Validate(), value or pointer receiver, REJECTS THE ZERO VALUE; and 8 types that UNPACK THEMSELVES through a pointer-receiver method - IntUnpacker (one rejecting negatives, one rejecting zero), UintUnpacker, FloatUnpacker, StringUnpacker, BoolUnpacker, the generic Unpacker, and a struct that is a ConfigUnpacker - each with a rejecting Validate() of either receiver, placed like every catalogue type: field with or without tags, pointee, element, map entry, value held by an interface; the twins have the same Unpack methods and no Validate(). One element in eight of every list / array setting and one entry in eight of every map setting is an explicit null, which stands for the zero value of the element type. While N-C04-1 is open, validate tags on a pointer to a primitive-kind self-unpacking type, and on an interface{} field when such a type is among the held types, are constructed away): Validate() declared on the VALUE receiver and on the POINTER receiver for every underlying kind a named type can have - int, uint, float, string, bool, an int64 derived from time.Duration, slice, array, map, struct -, InitDefaults (pointer receiver, for maps also value receiver) on named int, uint, float, string, bool, map and struct types with valid and with invalid defaults; 17 of them have an InitDefaults that installs exactly one value failing validation - the value of a named string / float / bool / int itself, a map entry rejected by the element's Validate() (value or pointer receiver), by a tag of the element struct or of a pointee, a list element / array element / map entry / pointee / tagged field of a struct - which only the configuration can override; 6 more have an InitDefaults that stores ONE object at two places with different validators (one *int in two fields with different bounds, as a list element and in a tagged field, a *Duration as a map entry and in a tagged field, a *float64 behind a further pointer and in a tagged field, an empty slice / map in two fields the second of which is required), the second place rejecting it; the harness checks at start-up that the oracle's description of every catalogue type agrees with its method sets) with validate tags (required, nonzero, positive, min=N, max=N, singly or in pairs, sometimes spelt with blanks around '=') on about a third of the fields whose kind the documentation defines them for (every second duration field), at any depth; parameters in every syntax the code reads them with: integers decimal, hexadecimal, octal (0o17 and 017), binary, with digit separators and signs, up to the 64-bit limits; floats with exponent, hexadecimal, bare point, sign; duration bounds in unit syntax (compound, fractional, signed) and as plain numbers of seconds (integral, fractional, negative, exponent form); settings on, below and above every bound. Inline fields of every kind the code accepts: about a quarter of the collection types below the top level (an eighth of the struct types, catalogue types included) are replaced by struct{C T `config:\",inline\"`} (a quarter of them spelt squash, a quarter with a named sibling field), whose setting is the list / object itself, and every second inline slice / array / map field carries a required / nonzero tag (inline maps only while D55 is not open). 1 case in 12 unpacks into a map, slice or array target (plain or catalogue type; in a third of them map[string]interface{}, []interface{} or collections of those) instead of a struct. Values reached through an interface: in 1 case of 3 about a quarter of the fields are turned into interface{}, []interface{}, map[string]interface{}, [N]interface{} or map[string][]interface{} fields and a quarter of the collections of primitives into collections of interface{} (inline spellings and collection-level required / nonzero tags included); every second interface{} field carries a tag itself (required, nonzero, positive, min / max with a bound every numeric kind reads; only while D61 is not open); the pre-filled interfaces are nil or hold generic data (about 1 of 7 each), otherwise a typed value: a catalogue type with Validate() / InitDefaults / tags, a pointer or double pointer to one (nil pointers included), a reflect.StructOf struct with tagged fields (by value or behind a pointer), a typed slice / map / pointer to slice or map of such types, generic []interface{} / map[string]interface{} holding typed values again, or a pointer to a tagged struct that has an interface-typed field itself (two levels); the dynamic types are part of the case (dyn), valid and invalid values alike; the configuration leaves the interface unmentioned, or holds a setting built from the dynamic type of the pre-filled value (the code merges it into the held value) or generic data. The twin value holds the twin VALUE (no Validate, no tags) of the same shape in the interface; the walk follows interfaces by the dynamic Go type of what it finds (the types of the case, the types behind their pointers, generic data). A pre-filled value (zero value in 1 of 6 cases); a configuration built from the type that mentions about half of the fields (explicit nil settings included; for maps other keys than the pre-filled / InitDefaults ones as a rule, in 1 of 4 draws the keys InitDefaults inserts); a global list policy (replace, append, prepend, replace arrays only) in 1 of 3 cases and policy tags on slices; with VarExp (1 of 3) about a fifth of the settings are delivered through ${rN} references. Oracle: unpack configuration and pre-filled value into the twin type (no tags, no Validate methods, same InitDefaults) to get R; reference validators (documented meaning, applied through non-nil pointers, tags of inline fields included) walk R; all accept => Unpack into the real type succeeds with a result equal to R; one rejects => Unpack fails and the message quotes the path of a rejected field or of an enclosing one (nothing to quote for a validator of the target itself or an element of a collection target kept from the pre-filled value); tags of a collection field whose elements are not structs are also applied to the elements and such element-level rejections alone allow either verdict; whenever Unpack returns nil the returned value itself is walked. Constructed away only while the finding is open: a rejecting Validate() of a value an interface holds directly (D59), a setting for an interface that holds a struct, an array or a nil map by value (D60: Unpack panics), tags on interface{} fields (D61). Non-trivial: a deciding validator (a rejecting one, or any if all accept) judges a value the configuration does not mention (default / InitDefaults) or sits behind a pointer, inside a collection or in an inline field. Distinct: hash of (type, pre-filled value, configuration, VarExp, policy, dynamic types).",
 	Gen:  genCase,
 	Run:  runCase,
 })
